@@ -2,7 +2,7 @@ SPECIFICATION Spec
 CONSTANTS
   Sizes <- MC_SmallSizes
   Lays <- MC_SmallLays
-  Modes = {"r", "w", "a", "r+", "w+", "a+", "tmp"}
+  Modes = {"r", "w", "a", "r+", "w+", "a+", "tmp", "out", "in"}
   RCounts = {0, 1, 2, 7}
   WCounts = {0, 2, 6}
   SOffs <- MC_SmallSOffs
